@@ -105,6 +105,7 @@ type Config struct {
 	AllowAgain     bool // read/write may return EAGAIN
 	AllowPartial   bool // read/write may transfer fewer bytes than asked
 	AllowHup       bool // epoll may report ERR/HUP
+	Eager          bool // epoll_wait reports everything that is ready, with full masks (a loop that is "run until quiescent")
 	Batch          int  // max entries per epoll_wait
 	MaxWaits       int  // max number of epoll_wait calls (0: unbounded); more is outside the bound
 	MaxDataOps     int  // max number of read/write calls that transfer data (0: unbounded); more is outside the bound
@@ -586,9 +587,16 @@ func EpollWait(epfd int, out []Ready, timeoutMs int) (int, syscall.Errno) {
 			cand[nc] = i
 			nc++
 		}
-		c := vf.Choice("epoll.pick", nc+1) // nc = no further entry
-		if c == nc {
-			break
+		c := 0
+		if K.Cfg.Eager {
+			if nc == 0 {
+				break
+			}
+		} else {
+			c = vf.Choice("epoll.pick", nc+1) // nc = no further entry
+			if c == nc {
+				break
+			}
 		}
 		pick := cand[c]
 		f := &K.FDs[pick]
@@ -627,7 +635,19 @@ func EpollWait(epfd int, out []Ready, timeoutMs int) (int, syscall.Errno) {
 			if nl == 0 {
 				break
 			}
-			mask = legal[vf.Choice("epoll.mask", nl)]
+			if K.Cfg.Eager {
+				// everything that is ready: readable if input is there, writable if asked for
+				mask = reg & EPOLLOUT
+				if reg&EPOLLIN != 0 && (!f.Scripted || f.ScriptOff < len(f.Script) || f.ScriptEOF) {
+					mask |= EPOLLIN
+				}
+				if mask == 0 {
+					taken[pick] = true
+					continue
+				}
+			} else {
+				mask = legal[vf.Choice("epoll.mask", nl)]
+			}
 			if mask&(EPOLLERR|EPOLLHUP) != 0 {
 				f.HupSeen = true
 			}
